@@ -30,7 +30,9 @@ def tt_structure(tt, name):
     if "glyf" in tt:
         g = tt["glyf"][name]
         if g.isComposite():
-            return ("composite", tuple(c.glyphName for c in g.components))
+            # gvar can vary a component's offset only: the 2x2 must be the same in every master
+            return ("composite", tuple((c.glyphName, tuple(tuple(round(v * 16384) for v in row) for row in c.transform)
+                                        if hasattr(c, "transform") else None) for c in g.components))
         if g.numberOfContours <= 0:
             return ("empty",)
         return ("simple", tuple(g.endPtsOfContours), tuple(int(f) & 1 for f in g.flags))
@@ -131,7 +133,7 @@ def explore(ctx):
             continue
         compare_masters(ctx, case, out, sparse=(1, ["acutecomb_gravecomb"]))
     rng = ctx.subrng("families")
-    for i in range(ctx.budget(36, 240)):
+    for i in range(ctx.budget(96, 480)):
         lib = ["ufoLib2", "defcon"][i % 2]
         n = rng.choice([2, 2, 3, 4])
         variant = ["plain", "diff2x2", "plain", "mirror-one", "sparse", "plain", "closing-point", "plain"][i % 8]
@@ -153,10 +155,18 @@ def explore(ctx):
         sig = None
         sig_glyphs = None
         if variant == "diff2x2" and comp_glyphs:
-            gname = rng.choice(comp_glyphs)
+            pure = [g["name"] for g in base["glyphs"] if g["components"] and not g["contours"]]
+            gname = rng.choice(pure or comp_glyphs)
             g = next(x for x in masters[-1]["glyphs"] if x["name"] == gname)
             b, t = g["components"][0]
-            g["components"][0] = (b, (t[0] * Fr(5, 4), t[1], t[2], t[3] * Fr(3, 4), t[4], t[5]))     # same orientation, other scale
+            # same orientation, another 2x2: all four entries, or exactly one of them (xx / xy / yx / yy alone)
+            which = ["yy", "all", "xx", "xy", "yx"][(i // 8) % 5]
+            f = {"all": (Fr(5, 4), 0, 0, Fr(3, 4)), "xx": (Fr(5, 4), 0, 0, 1), "xy": (1, Fr(1, 8), 0, 1), "yx": (1, 0, Fr(1, 8), 1),
+                 "yy": (1, 0, 0, Fr(5, 4))}[which]
+            g["components"][0] = (b, (t[0] * f[0] if f[0] else t[0], t[1] + f[1], t[2] + f[2], t[3] * f[3] if f[3] else t[3], t[4], t[5]))
+            if (g["components"][0][1][0] * g["components"][0][1][3] - g["components"][0][1][1] * g["components"][0][1][2]) * \
+                    (t[0] * t[3] - t[1] * t[2]) <= 0:
+                g["components"][0] = (b, t)        # would flip the orientation: that is the mirror-one variant
         elif variant == "mirror-one" and comp_glyphs:
             gname = rng.choice(comp_glyphs)
             g = next(x for x in masters[-1]["glyphs"] if x["name"] == gname)
